@@ -1,4 +1,5 @@
 import SspModel.Lemmas.IMF
+import SspModel.Lemmas.Bridge.IMF
 import SspModel.Props.C12
 /-!
 # C11 — the IMF is continuous, normalised, and binned consistently
@@ -97,6 +98,27 @@ theorem PkCore_telescope (a k : ℝ) (e0 : ℝ) (es : List ℝ) (h0 : 0 < e0)
     exact PkCore_add a k e0 e1 _ h0 hinc.1 (chain_le_getLast e1 es hinc.2)
 
 structure Statement : Prop where
+  /-- the conditions handed to `np.select` by `__call__` and `binned_eval`, and the continuity recursion, are the source's own -/
+  source_call : ∀ (ext : Nat) (segs : List (Seg ℝ)) (m : ℝ), evalBounds ext segs m =
+      (let nc := segs.length
+       if ext == 0 then
+         if nc == 1 then [true]
+         else (List.range nc).zipWith (fun i (s : Seg ℝ) =>
+           if i == 0 then Generated.call_first m s.2.1
+           else if i == nc - 1 then Generated.call_last m s.1
+           else Generated.call_mid m s.1 s.2.1) segs
+       else segs.map fun s => Generated.call_in m s.1 s.2.1)
+  source_binned : ∀ (ext : Nat) (segs : List (Seg ℝ)) (lo hi : ℝ), binMasks ext segs lo hi =
+      (let nc := segs.length
+       if ext == 0 then
+         if nc == 1 then [true]
+         else (List.range nc).zipWith (fun i (s : Seg ℝ) =>
+           if i == 0 then Generated.bin_first lo hi s.2.1
+           else if i == nc - 1 then Generated.bin_last lo hi s.1
+           else Generated.bin_mid lo hi s.1 s.2.1) segs
+       else segs.map fun s => Generated.bin_in lo hi s.1 s.2.1)
+  source_recursion : ∀ (lo hi a lo' hi' a' q : ℝ) (rest : List (Seg ℝ)),
+    imfQs ((lo, hi, a) :: (lo', hi', a') :: rest) q = q :: imfQs ((lo', hi', a') :: rest) (Generated.imf_A_step q lo a a')
   /-- integrates to N0 over its mass range, any number of segments, slopes incl. −1 -/
   normalised : ∀ (segs : List (Seg ℝ)) (n : ℝ), SegsPos segs → segs ≠ [] →
     totalIntegral segs (imfA segs) n = n
@@ -145,6 +167,9 @@ theorem imfMtot_linear (segs : List (Seg ℝ)) (n : ℝ) : imfMtot segs n = n * 
       ring
 
 theorem C11_partial : Statement where
+  source_call := Bridge.gen_evalBounds
+  source_binned := Bridge.gen_binMasks
+  source_recursion := Bridge.gen_imfQs_step
   normalised := fun segs n hs hne => by
     rw [totalIntegral_eq segs _ n hs, imfA_normalised segs hs hne, mul_one]
   continuous := fun segs i hs hi => by
